@@ -205,3 +205,34 @@ def spec_lex(q):
             toks.append((RESERVED.get(text, "TERM"), text, i))
             i = j
     return toks
+
+
+def scribble(t):
+    """what a caller may do with the tree it was given (quick start, "manipulating"): edit it in place"""
+    stack = [t]
+    while stack:
+        n = stack.pop()
+        stack.extend(n.children)
+        n.head = (n.head or "") + "#"
+        n.tail = "#"
+        n.pos = -7
+        if type(n).__name__ == "Word":
+            n.value = "scribbled"
+        elif type(n).__name__.endswith("Operation"):
+            n.children = list(reversed(n.children))
+
+
+def parsed_again_after_edit(ctx, rng, q, t, oracle, share=0.06):
+    """history: the caller edits the tree it was given in place, then the same text is parsed again (by either entry
+    point). The parser hands out a new tree on every call: the second tree must satisfy `oracle` like the first
+    (seeded C02-G: parse results memoised by text)"""
+    if rng.random() >= share:
+        return
+    scribble(t)
+    ctx.count("history: the returned tree edited in place, the same text parsed again")
+    for entry in ("module", "thread"):
+        r2, t2 = impl_parse(q, entry)
+        if t2 is None:
+            ctx.fail("a query accepted once is rejected when parsed again", {"q": q, "entry": entry, "err": r2})
+        else:
+            oracle(ctx, q, t2)
